@@ -13,7 +13,7 @@ MANIFEST = dict(
           "characterised by positions) is shown to be preserved by the two primitives every editing call is built from "
           "(extract, _insert's linking) and hence by every call and every finite history, and WF implies that all six link "
           "fields and the seven iterators are the pre-order of the children lists (see evidence 'theorems' for what is "
-          "proved on this run). Tie: after EVERY step of generated histories (parsed and API-built starts, 14 call kinds, "
+          "proved on this run). Tie: after EVERY step of generated histories (parsed and API-built starts, 15 call kinds (incl. clear(decompose=True) and the deprecated spellings replaceWith / replace_with_children / replaceWithChildren), "
           "arguments fresh / plain str / from anywhere in the forest incl. same parent, other trees, whole BeautifulSoup "
           "objects), every pointer and iterator of every live element is compared with the model, and the property statement "
           "is evaluated directly on the real objects."),
@@ -112,7 +112,7 @@ def compare(ctx: Ctx, reply: str, real_dumps, case, soups, iters, stream):
 
 def run(ctx: Ctx):
     ctx.rule = ("edit histories: start = html.parser parse of a random tree or fresh API objects (1-2 BeautifulSoup roots, 3-9 tags, "
-                "2-6 strings, 0-2 comments); 14 call kinds, 40% multi-argument, arguments: plain str / repeated / same-parent / "
+                "2-6 strings, 0-2 comments); 15 call kinds (incl. clear(decompose=True) and the deprecated spellings replaceWith / replace_with_children / replaceWithChildren), 40% multi-argument, arguments: plain str / repeated / same-parent / "
                 "elsewhere in the forest / roots and fresh / whole BeautifulSoup; after every step all pointers and iterators of "
                 "all live elements vs the Lean model, and the direct oracle. non-trivial = a history in which an argument came "
                 "from the same parent, from elsewhere in the forest, was a BeautifulSoup object or was repeated")
